@@ -323,7 +323,10 @@ def contract(target, property=None, **kw):  # noqa: A002
         C = type(cls.__name__, (Contract,), ns)
         inst = C()
         inst.defined_in = cls.__module__
-        REGISTRY[target] = inst
+        # `alias`: a second, independent contract on the same real function (e.g. another property's clauses);
+        # it is verified against the body like any other but never used at call sites (callers see the primary one)
+        alias = ns.get("alias")
+        REGISTRY[target if not alias else f"{target}#{alias}"] = inst
         return inst
 
     return deco
@@ -367,6 +370,12 @@ class VerifyTask:
             # feasibility checks at branches: an `unknown` answer keeps the branch (sound), so a contract whose
             # path conditions carry quantifiers may ask for a shorter budget per check
             self.config.branch_timeout_ms = c.branch_timeout_ms
+        if getattr(c, "forall_range_check", True) is False:
+            self.config.forall_range_check = False
+        if getattr(c, "ground_first", False):
+            self.config.ground_first = True
+        if getattr(c, "rounding_hints", False):
+            self.config.rounding_hints = True
         self.ref = fn_override or SRC.resolve(c.target)
         self.used_contracts: set = set()
         self.inlined: set = set()
@@ -437,6 +446,15 @@ class VerifyTask:
         if p is None or not hasattr(p, "isinstance"):
             raise Unsupported(f"isinstance of opaque {obj.kind}")
         return p.isinstance(ip, st, obj, cls)
+
+    def opaque_binop(self, ip, st, op, a, b):
+        """`a <op> b` where an operand is an opaque individual: modelled by the protocol of its kind
+        (`binop(ip, st, op, a, b)`), e.g. the intersection of a child's sizing set with a constant set."""
+        o = a if isinstance(a, V.SOpaque) else b
+        p = PROTOCOLS.get(o.kind)
+        if p is None or not hasattr(p, "binop"):
+            raise Unsupported(f"binary op {type(op).__name__} on opaque {o.kind}")
+        return p.binop(ip, st, op, a, b)
 
     def opaque_hasattr(self, ip, st, obj, name):
         p = PROTOCOLS.get(obj.kind)
